@@ -159,13 +159,14 @@ Lemma parse_flag2_print : forall (name : string) b n, is_tag name (tag name) = t
   parse_flag2 name [tag name; tbool b; print_obool n] = Some (b, n).
 Proof. intros name b n H. unfold parse_flag2. rewrite H. destruct b, n as [[|]|]; reflexivity. Qed.
 
-(* ---- the two extracted functions, composed *)
-Lemma run_model_obs : forall l c, parse_case l = Some c -> run_model l = model_obs c.
-Proof. intros l c H. unfold run_model. rewrite H. now destruct c. Qed.
+(* ---- the two extracted functions, composed (a case line without a "|| <trace>" part) *)
+Lemma run_model_obs : forall l0 l c, split_trace l0 = (l, None) -> parse_case l = Some c -> run_model l0 = model_obs c.
+Proof. intros l0 l c S H. unfold run_model. rewrite S, H. now destruct c. Qed.
 
-Lemma run_spec_on_model : forall l c, parse_case l = Some c -> case_good c -> run_spec l (run_model l) = spec_on c.
+Lemma run_spec_on_model : forall l0 l c, split_trace l0 = (l, None) -> parse_case l = Some c -> case_good c ->
+  run_spec l0 (run_model l0) = spec_on c.
 Proof.
-  intros l c H G. rewrite (run_model_obs l c H). unfold run_spec. rewrite H.
+  intros l0 l c S H G. rewrite (run_model_obs l0 l c S H). unfold run_spec. rewrite S. cbn [fst]. rewrite H.
   destruct c as [s | s | k raw s | r d vs keys ops | r d ops | r d ops | kind r d threads]; cbn [model_obs spec_on].
   - now rewrite parse_flag2_print.
   - change (tbool (validate_unit_nr s)) with (print_obool (Some (validate_unit_nr s))). now rewrite parse_flag2_print.
@@ -176,11 +177,12 @@ Proof.
   - now rewrite parse_print_prace.
 Qed.
 
-Lemma model_meets_spec_wire_lemma : forall l c, parse_case l = Some c -> case_good c -> run_spec l (run_model l) = [].
-Proof. intros l c H G. rewrite (run_spec_on_model l c H G). now apply model_meets_spec_lemma. Qed.
+Lemma model_meets_spec_wire_lemma : forall l0 l c, split_trace l0 = (l, None) -> parse_case l = Some c -> case_good c ->
+  run_spec l0 (run_model l0) = [].
+Proof. intros l0 l c S H G. rewrite (run_spec_on_model l0 l c S H G). now apply model_meets_spec_lemma. Qed.
 
 (* a parsed case for which nothing is excluded *)
 Example wire_nonvacuous :
-  exists c, parse_case [tag "TR"; TZ 1; tag ";"; tag "N"; TB (bs "a"); TZ 0; tag "|"; tag "G"; TB (bs "a"); TB []; TB []; tag ";";
-                        tag "G"; TB (bs "b"); TB []; TB []] = Some c /\ case_good c.
-Proof. eexists. split; [vm_compute; reflexivity | exact I]. Qed.
+  exists l c, split_trace [tag "TR"; TZ 1; tag ";"; tag "N"; TB (bs "a"); TZ 0; tag "|"; tag "G"; TB (bs "a"); TB []; TB []; tag ";";
+                           tag "G"; TB (bs "b"); TB []; TB []] = (l, None) /\ parse_case l = Some c /\ case_good c.
+Proof. eexists. eexists. split; [vm_compute; reflexivity|]. split; [vm_compute; reflexivity | exact I]. Qed.
